@@ -228,6 +228,19 @@ class Engine:
                         return FIELDS[(k.__name__, attr)]
         return FIELDS.get(attr)
 
+    def storage(self, cls, attr):
+        """Name of the heap map of a field: class-qualified declarations get a map of their own (an attribute name may
+        hold values of different sorts in unrelated classes, e.g. Leaf.value : str and PythonTokenTypes.value : object)."""
+        if cls is not None:
+            c = classes.get(cls)
+            if c is not None:
+                for k in c.__mro__:
+                    if (k.__name__, attr) in FIELDS:
+                        if FIELDS.get(attr) == FIELDS[(k.__name__, attr)]:
+                            return attr          # same kind as the global declaration: one shared map
+                        return '%s.%s' % (k.__name__, attr)
+        return attr
+
     def read_field(self, st, ref, attr, kind):
         if kind == 'pos':
             return VTuple([VInt(st.rd(attr + '.0', ref)), VInt(st.rd(attr + '.1', ref))])
@@ -330,7 +343,9 @@ class Engine:
                     st.may_raise(z3.BoolVal(True), 'AttributeError', 'leaf.children')
                 elif hc == 'maybe':
                     st.may_raise(self.is_leaf(recv.t), 'AttributeError', 'leaf.children')
-            return self.read_field(st, recv.t, attr, fk)
+            return self.read_field(st, recv.t, self.storage(cls, attr), fk)
+        if isinstance(recv, VPy) and isinstance(recv.obj, dict) and attr == 'get':
+            return VFn('constdict_get', d=recv.obj)
         if isinstance(recv, VPy):
             try:
                 o = getattr(recv.obj, attr)
@@ -362,13 +377,15 @@ class Engine:
         fk = self.field_kind(cls, attr)
         if fk is None:
             raise OutOfSubset('attribute %s of %s has no declared kind' % (attr, cls))
-        self.write_field(st, recv.t, attr, fk, v)
+        self.write_field(st, recv.t, self.storage(cls, attr), fk, v)
 
     # ------------------------------------------------------------------ subscripts
     def norm_index(self, st, idx, n, site):
         """Python index normalisation; registers the IndexError condition."""
         i = self.as_int(idx)
         st.may_raise(z3.Or(i >= n, i < -n), 'IndexError', site)
+        if z3.is_int_value(i):
+            return i + n if i.as_long() < 0 else i      # no if-then-else for literal indices (terms stay usable as triggers)
         return z3.If(i < 0, i + n, i)
 
     def get_item(self, st, recv, idx):
@@ -453,7 +470,7 @@ class Engine:
             src = st.larr(recv.t, recv.ek)
             k = z3.Int(fresh_name('k'))
             dst = z3.Const(fresh_name('sl'), ARR_IS if recv.ek == 'str' else ARR_II)
-            st.pc.append(z3.ForAll([k], z3.Select(dst, k) == z3.Select(src, k + a), patterns=[z3.Select(dst, k)]))
+            st.pc.append(smt.forall([k], z3.Select(dst, k) == z3.Select(src, k + a), patterns=[z3.Select(dst, k)]))
             st.lset_all(l, dst, recv.ek)
             return VList(l, recv.ek)
         if isinstance(recv, VTuple):
